@@ -3,6 +3,16 @@ package core
 // Stream returns n deterministic bytes of stream `which` for the seed, starting
 // at offset off. Printable ASCII with newlines (mode "text") or all byte values.
 func Stream(seed uint64, which byte, off, n int, binary bool) []byte {
+	if binary {
+		return StreamOf(seed, which, off, n, 1)
+	}
+	return StreamOf(seed, which, off, n, 0)
+}
+
+// StreamOf: mode 0 = text with CR, LF and TAB, 1 = arbitrary bytes, 2 = printable characters only
+// (one single line, however long).
+func StreamOf(seed uint64, which byte, off, n int, mode int) []byte {
+	binary := mode == 1
 	out := make([]byte, n)
 	for i := 0; i < n; i++ {
 		pos := uint64(off + i)
@@ -15,8 +25,8 @@ func Stream(seed uint64, which byte, off, n int, binary bool) []byte {
 		} else {
 			v := byte(x % 99)
 			switch {
-			case v < 95:
-				out[i] = 32 + v
+			case v < 95 || mode == 2:
+				out[i] = 32 + v%95
 			case v == 95:
 				out[i] = '\n'
 			case v == 96:
